@@ -372,6 +372,22 @@ func c11LogIsRepeats(l []c11Ev, ref []string, n int, sel func(c11Ev) bool) bool 
 }
 
 func (sc *c11Scenario) laws(s *simrt.Sim, add func(clause, fp, detail string)) {
+	// method-style constructors of the utility instance (interface{} element type)
+	{
+		ran := 0
+		j := fpgo.MonadIO.Just(41)
+		n := fpgo.MonadIO.New(func() interface{} { ran++; return "n" })
+		c := j.FlatMap(func(v interface{}) *fpgo.MonadIODef[interface{}] {
+			return fpgo.MonadIO.New(func() interface{} { ran += 10; return fmt.Sprint(v, "+") })
+		})
+		if ran != 0 {
+			add("lazy", "MonadIO.New-ran-at-construction", fmt.Sprintf("MonadIO.New/Just/FlatMap ran effects while composing (counter %d)", ran))
+		}
+		v1, v2, v3 := j.Eval(), n.Eval(), c.Eval()
+		if v1 != 41 || v2 != "n" || v3 != "41+" || ran != 11 {
+			add("value", "MonadIO-method-constructors", fmt.Sprintf("MonadIO.Just(41).Eval()=%v, MonadIO.New(..).Eval()=%v, Just(41).FlatMap(..).Eval()=%v, effect counter %d (want 41, n, 41+, 11)", v1, v2, v3, ran))
+		}
+	}
 	tp := simrt.NewGenTape(uint64(sc.LawSeed) + 77)
 	id := 1000
 	fBody := genC11Node(tp, 1, &id)
